@@ -72,6 +72,10 @@ def make(cfg):
                     P[i] = TR.adam(P[i], g, st, hp["lr"], hp["b1"], hp["gb2"], hp["geps"], hp["wd"], target == "adamw")
             for i, p in enumerate(run.params):
                 got = H.read(p)
+                if not isinstance(P[i], np.ndarray):  # 0-d arrays decay to scalars in numpy arithmetic
+                    a0 = np.empty((), dtype=object)
+                    a0[()] = P[i]
+                    P[i] = a0
                 for idx in np.ndindex(*got.shape) if got.ndim else [()]:
                     symx.prove_equal(f"warm-up trajectory equals torch.optim.{target} (param {i}{list(idx)} step {k})", got[idx], P[i][idx], info)
             symx.prove("no inverse root is computed during warm-up", len(run.inv_stub.calls) == 0, info)
